@@ -77,6 +77,8 @@ class JSONSerialization(Serialization):
     @classmethod
     def schema(cls, pobj, safe=False, subset=None):
         schema = {}
+        if subset is not None and not isinstance(subset, str):
+            subset = list(subset)
         for name, p in pobj.param.objects('existing').items():
             if subset is not None and name not in subset:
                 continue
@@ -90,6 +92,8 @@ class JSONSerialization(Serialization):
     @classmethod
     def serialize_parameters(cls, pobj, subset=None):
         components = {}
+        if subset is not None and not isinstance(subset, str):
+            subset = list(subset)
         for name, p in pobj.param.objects('existing').items():
             if subset is not None and name not in subset:
                 continue
@@ -101,6 +105,8 @@ class JSONSerialization(Serialization):
     def deserialize_parameters(cls, pobj, serialization, subset=None):
         deserialized = cls.loads(serialization)
         components = {}
+        if subset is not None and not isinstance(subset, str):
+            subset = list(subset)
         for name, value in deserialized.items():
             if subset is not None and name not in subset:
                 continue
